@@ -39,6 +39,8 @@ pub fn engines() -> Vec<EngineDef> {
                 "the BuildResult images are what the assembler can produce: any byte string up to the largest flash (524288 bytes), plus the 1 MiB boundary and up to 8 MiB of the default device in thorough",
                 "simlibc intercepts every libc call the writers make (open64, write, writev, close, fsync, ftruncate, rename, unlink)",
                 "release semantics: overflow-checks and debug-assertions off, as cargo install builds",
+                "what is at the output path beforehand never excuses a wrong file after Ok: junk, a longer file, a symbolic link, or the right file cut short / with a record moved (made by a healthy call of the same writer, then damaged)",
+                "two callers writing different files: with nothing injected, a call that returns Ok alone returns Ok next to the other one (also below a directory that does not exist yet); the reverse is not demanded",
             ],
             real: &["avra_lib::writer (write_code_hex, write_eeprom_hex, generate_hex)", "ihex crate", "Rust std fs/io", "kernel tmpfs holding the file bytes", "kernel RLIMIT_FSIZE enforcement"],
             simulated: &["outcome of open/write/close at the libc boundary (which call fails, with what errno, how short)", "hash keys (getrandom)", "logical clock"],
